@@ -329,10 +329,13 @@ impl<'s, M: Matcher, S: Sink> MultiLine<'s, M, S> {
     }
 
     fn find(&mut self) -> Result<Option<Range>, S::Error> {
-        match self.core.matcher().find(&self.slice[self.core.pos()..]) {
+        // Search the whole slice starting at the current position (instead of
+        // a sub-slice), so that look-behind assertions such as \A or \b see
+        // what actually precedes the position.
+        match self.core.matcher().find_at(self.slice, self.core.pos()) {
             Err(err) => Err(S::Error::error_message(err)),
             Ok(None) => Ok(None),
-            Ok(Some(m)) => Ok(Some(m.offset(self.core.pos()))),
+            Ok(Some(m)) => Ok(Some(m)),
         }
     }
 
